@@ -675,6 +675,14 @@ func runC04(c *Ctx) {
 			}
 		} else {
 			steps = simHistory(c.Rng, 10+c.Rng.Intn(60))
+			if c.Rng.Chance(30) {
+				// IRCv3 decorations the tracker has no business with: lines grouped into a batch (netsplit/netjoin), server-time, msgid
+				for j := range steps {
+					if j > 0 && c.Rng.Chance(50) && strings.HasPrefix(steps[j], "R:") {
+						steps[j] = "R@" + c.Rng.Pick([]string{"batch=nb1", "time=2020-01-02T03:04:05.678Z", "batch=nb1;msgid=abc123", "msgid=x;time=2021-11-12T13:14:15.000Z;batch=r2"}) + " " + steps[j][1:]
+					}
+				}
+			}
 		}
 		// checked after the welcome has been fully processed: dumps at the end and at a few points in between
 		var withDumps []string
